@@ -89,19 +89,19 @@ Qed.
 
 (* ------------------------------------------------------------------ facts about one scanner move *)
 
-Lemma sc_step_cancel c s : s_cancel (sc_step cfg c s) = s_cancel s.
+Lemma sc_step_cancel c tf s : s_cancel (sc_step cfg c tf s) = s_cancel s.
 Proof.
   unfold sc_step. destruct (s_phase s) as [|mb [|v rest]|b]; try reflexivity.
   - destruct (s_todo s); reflexivity.
-  - destruct (s_cancel s) eqn:E; cbn [set_phase s_cancel]; exact E.
+  - destruct (s_cancel s && negb tf); reflexivity.
   - destruct (expired c (snd v)); reflexivity.
 Qed.
 
-Lemma sc_step_removed c s : exists delta, s_removed (sc_step cfg c s) = s_removed s ++ delta.
+Lemma sc_step_removed c tf s : exists delta, s_removed (sc_step cfg c tf s) = s_removed s ++ delta.
 Proof.
   unfold sc_step. destruct (s_phase s) as [|mb [|v rest]|b].
   - destruct (s_todo s); exists []; cbn; rewrite app_nil_r; reflexivity.
-  - destruct (s_cancel s); exists []; cbn; rewrite app_nil_r; reflexivity.
+  - destruct (s_cancel s && negb tf); exists []; cbn; rewrite app_nil_r; reflexivity.
   - destruct (expired c (snd v)); [eexists; reflexivity|exists []; cbn; rewrite app_nil_r; reflexivity].
   - exists []. rewrite app_nil_r. reflexivity.
 Qed.
@@ -110,11 +110,11 @@ Lemma skipn_length_app {A} (a b : list A) : skipn (length a) (a ++ b) = b.
 Proof. induction a as [|x a IH]; [reflexivity|exact IH]. Qed.
 
 (** A scanner move only takes entries out of the store. *)
-Lemma sc_step_live_sub c s e : In e (live (s_st (sc_step cfg c s))) -> In e (live (s_st s)).
+Lemma sc_step_live_sub c tf s e : In e (live (s_st (sc_step cfg c tf s))) -> In e (live (s_st s)).
 Proof.
   unfold sc_step. destruct (s_phase s) as [|mb [|v rest]|b]; try (intros H; exact H).
   - destruct (s_todo s); intros H; exact H.
-  - destruct (s_cancel s); intros H; exact H.
+  - destruct (s_cancel s && negb tf); intros H; exact H.
   - destruct (expired c (snd v)); [|intros H; exact H]. cbn [s_st].
     destruct (do_remove_live cfg (s_st s) mb (fst v)) as [L _]. rewrite L. unfold remove_ent. intros H.
     apply filter_In in H. tauto.
@@ -143,7 +143,26 @@ Definition cap (y : lstate) : nat :=
   | _ => 0
   end.
 
-Lemma budget_step y e : cancelled y -> (l_visits (lstep y e) + cap (lstep y e) <= l_visits y + cap y)%nat.
+Definition tick (tf : bool) : nat := if tf then 1 else 0.
+
+(** Moves at which a timer wins its select although ctx is done. *)
+Fixpoint timer_wins (evs : list lev) : nat :=
+  match evs with [] => 0 | LStep tf :: r => tick tf + timer_wins r | _ :: r => timer_wins r end.
+
+(** In every move of the schedule the ctx case wins: true of the code once shutdown is
+    requested as long as the timers involved have not expired (RetentionSleep not near 0). *)
+Definition lctx_first (evs : list lev) : Prop := forall tf, In (LStep tf) evs -> tf = false.
+
+Lemma lctx_first_wins evs : lctx_first evs -> timer_wins evs = 0%nat.
+Proof.
+  induction evs as [|e r IH]; intros F; [reflexivity|].
+  assert (F' : lctx_first r) by (intros tf H; apply F; right; exact H).
+  destruct e as [d| |o|tf]; cbn [timer_wins]; try (apply IH; exact F').
+  rewrite (F tf (or_introl eq_refl)). cbn. apply IH. exact F'.
+Qed.
+
+Lemma budget_step y e : cancelled y ->
+  (l_visits (lstep y e) + cap (lstep y e) <= l_visits y + cap y + match e with LStep tf => tick tf | _ => 0 end)%nat.
 Proof.
   unfold cancelled. intros C. destruct e as [d| |o|tf]; cbn [lev_step]; try (unfold cap; cbn; lia).
   unfold loop_step. destruct (l_mode y) eqn:M.
@@ -153,24 +172,31 @@ Proof.
   - unfold cap at 2. rewrite M. destruct (s_phase (l_sys y)) as [|mb rest|b] eqn:P; cbn [is_done is_idle].
     + unfold cap. cbn [l_mode l_sys l_visits]. unfold sc_step. rewrite P. destruct (s_todo (l_sys y)); cbn; lia.
     + unfold cap. cbn [l_mode l_sys l_visits]. unfold sc_step. rewrite P. destruct rest as [|v rest].
-      * rewrite C. cbn. lia.
+      * rewrite C. destruct tf; cbn; lia.
       * destruct (expired cutoff (snd v)); cbn; lia.
     + unfold cap. cbn. lia.
   - rewrite C. unfold cap. cbn. lia.
   - unfold cap. rewrite M. lia.
 Qed.
 
-(** (c), safety: once shutdown is requested at most ONE more mailbox callback is started,
-    whatever the schedule. *)
-Lemma cancel_one_callback evs : forall y, cancelled y -> (l_visits (run y evs) <= l_visits y + 1)%nat.
+(** (c), safety: once shutdown is requested, the number of mailbox callbacks still started is
+    at most one plus the number of moves at which an (already expired) timer wins its select
+    against ctx.Done — whatever the schedule. *)
+Lemma cancel_callbacks_bounded evs : forall y, cancelled y ->
+  (l_visits (run y evs) <= l_visits y + 1 + timer_wins evs)%nat.
 Proof.
-  assert (G : forall evs y, cancelled y -> (l_visits (run y evs) + cap (run y evs) <= l_visits y + cap y)%nat).
+  assert (G : forall evs y, cancelled y -> (l_visits (run y evs) + cap (run y evs) <= l_visits y + cap y + timer_wins evs)%nat).
   { induction evs0 as [|e r IH]; intros y C; [cbn; lia|]. rewrite lrun_cons.
-    pose proof (IH _ (cancelled_step y e C)). pose proof (budget_step y e C). lia. }
+    pose proof (IH _ (cancelled_step y e C)). pose proof (budget_step y e C).
+    destruct e; cbn [timer_wins]; lia. }
   intros y C. specialize (G evs y C). assert (cap y <= 1)%nat.
   { unfold cap. destruct (l_mode y); try lia. destruct (is_idle _); lia. }
   lia.
 Qed.
+
+(** …hence at most ONE more callback when the ctx case wins every select (timers not expired). *)
+Lemma cancel_one_callback evs y : lctx_first evs -> cancelled y -> (l_visits (run y evs) <= l_visits y + 1)%nat.
+Proof. intros F C. pose proof (cancel_callbacks_bounded evs y C). rewrite (lctx_first_wins evs F) in H. lia. Qed.
 
 (** Progress measure of a cancelled loop inside a callback / after the scan. *)
 Definition settled (y : lstate) : Prop :=
@@ -191,12 +217,13 @@ Definition togo (y : lstate) : nat :=
 Fixpoint lsteps_in (evs : list lev) : nat :=
   match evs with [] => 0 | LStep _ :: r => S (lsteps_in r) | _ :: r => lsteps_in r end.
 
-Lemma settled_step y e : cancelled y -> settled y ->
+Lemma settled_step y e : cancelled y -> settled y -> e <> LStep true ->
   settled (lstep y e) /\ cancelled (lstep y e) /\
   match e with LStep _ => l_mode y = LExit \/ (togo (lstep y e) < togo y)%nat | _ => togo (lstep y e) = togo y end.
 Proof.
-  intros C S. split; [|split; [apply cancelled_step; exact C|]].
+  intros C S NT. split; [|split; [apply cancelled_step; exact C|]].
   - unfold settled in *. destruct e as [d| |o|tf]; cbn [lev_step]; try exact S.
+    destruct tf; [congruence|].
     unfold loop_step. destruct (l_mode y) eqn:M; try contradiction.
     + destruct (s_phase (l_sys y)) as [|mb rest|b] eqn:P; cbn [is_done]; [discriminate S| |exact I].
       cbn [l_mode l_sys]. unfold sc_step. rewrite P. destruct rest as [|v rest].
@@ -205,6 +232,7 @@ Proof.
     + unfold cancelled in C. rewrite C. exact I.
     + rewrite M. exact I.
   - unfold settled, togo in *. destruct e as [d| |o|tf]; cbn [lev_step]; try reflexivity.
+    destruct tf; [congruence|].
     unfold loop_step. destruct (l_mode y) eqn:M; try contradiction.
     + right. destruct (s_phase (l_sys y)) as [|mb rest|b] eqn:P; cbn [is_done]; [discriminate S| |cbn; lia].
       cbn [l_mode l_sys]. unfold sc_step. rewrite P. destruct rest as [|v rest].
@@ -214,32 +242,38 @@ Proof.
     + left. reflexivity.
 Qed.
 
-(** (c), progress: inside a callback (or behind the scan) a cancelled loop has returned after
-    (entries left in the snapshot + 3) of its own moves, whatever else happens meanwhile. *)
-Lemma cancel_exits evs : forall y, cancelled y -> settled y -> (togo y <= lsteps_in evs)%nat ->
+(** (c), progress: inside a callback (or behind the scan) a cancelled loop whose timers have not
+    expired has returned after (entries left in the snapshot + 3) of its own moves, whatever
+    else happens meanwhile. (Each entry left may cost one RemoveMessage call: a mailbox with n
+    expired messages delays shutdown by up to n removals.) *)
+Lemma cancel_exits evs : forall y, lctx_first evs -> cancelled y -> settled y -> (togo y <= lsteps_in evs)%nat ->
   l_mode (run y evs) = LExit.
 Proof.
-  induction evs as [|e r IH]; intros y C S L.
+  induction evs as [|e r IH]; intros y F C S L.
   - change (run y []) with y. cbn in L. unfold settled, togo in *. destruct (l_mode y); try reflexivity; try contradiction; try lia.
     destruct (s_phase (l_sys y)); cbn in *; try discriminate S; try lia.
-  - rewrite lrun_cons. destruct (settled_step y e C S) as [S' [C' T]].
-    destruct e as [d| |o|tf]; cbn [lsteps_in] in L; try (apply IH; [exact C'|exact S'|lia]).
-    destruct T as [M|T]; [|apply IH; [exact C'|exact S'|lia]].
+  - assert (F' : lctx_first r) by (intros tf H; apply F; right; exact H).
+    assert (NT : e <> LStep true) by (intros ->; specialize (F true (or_introl eq_refl)); discriminate).
+    rewrite lrun_cons. destruct (settled_step y e C S NT) as [S' [C' T]].
+    destruct e as [d| |o|tf]; cbn [lsteps_in] in L; try (apply IH; [exact F'|exact C'|exact S'|lia]).
+    destruct T as [M|T]; [|apply IH; [exact F'|exact C'|exact S'|lia]].
     assert (E : lstep y (LStep tf) = y) by (cbn [lev_step]; unfold loop_step; rewrite M; reflexivity).
     rewrite E. apply exit_absorbing. exact M.
 Qed.
 
-(** Between callbacks a cancelled loop is one move away from [settled] or from the end. *)
+(** Between callbacks — or when an expired sleep timer wins at a callback end — a cancelled loop
+    is one move away from [settled], from the end, or from a scan between two mailboxes. *)
 Lemma cancel_unsettled y tf : cancelled y -> settled (lp y tf) \/ l_mode (lp y tf) = LExit \/
-  (l_mode y = LWait /\ exists c, l_mode (lp y tf) = LScan c /\ s_phase (l_sys (lp y tf)) = PIdle).
+  (exists c, l_mode (lp y tf) = LScan c /\ s_phase (l_sys (lp y tf)) = PIdle).
 Proof.
   unfold cancelled. intros C. unfold loop_step, settled. destruct (l_mode y) eqn:M.
   - rewrite C. destruct (l_last y + minute <=? l_now y); cbn [negb orb andb]; [|right; left; reflexivity].
-    destruct tf; cbn [negb]; [right; right; split; [reflexivity|eexists; split; reflexivity]|right; left; reflexivity].
-  - destruct (s_phase (l_sys y)) as [|mb rest|b] eqn:P; cbn [is_done]; [|left|left; exact I].
+    destruct tf; cbn [negb]; [right; right; eexists; split; reflexivity|right; left; reflexivity].
+  - destruct (s_phase (l_sys y)) as [|mb rest|b] eqn:P; cbn [is_done]; [| |left; exact I].
     + left. cbn [l_mode l_sys]. unfold sc_step. rewrite P. destruct (s_todo (l_sys y)); reflexivity.
-    + cbn [l_mode l_sys]. unfold sc_step. rewrite P. destruct rest as [|v rest]; [rewrite C; reflexivity|].
-      destruct (expired cutoff (snd v)); reflexivity.
+    + cbn [l_mode l_sys]. unfold sc_step. rewrite P. destruct rest as [|v rest].
+      * rewrite C. destruct tf; cbn [negb andb]; [right; right; eexists; split; reflexivity|left; reflexivity].
+      * left. destruct (expired cutoff (snd v)); reflexivity.
   - rewrite C. right; left; reflexivity.
   - right; left. exact M.
 Qed.
@@ -284,10 +318,10 @@ Proof.
       split; [exact S|split; [|exact L]]. cbn [l_mode l_now l_sys]. split; [lia|].
       split; [exact S|split; [constructor|exact I]].
     + destruct M as [M1 M2]. destruct (is_done (s_phase (l_sys y))); [split; [exact S|split; [exact I|exact L]]|].
-      pose proof (Inv_step cfg cutoff (l_sys y) EStep M2) as M3. cbn [ev_step] in M3.
+      pose proof (Inv_step cfg cutoff (l_sys y) (EStep tf) M2) as M3. cbn [ev_step] in M3.
       split; [exact (proj1 M3)|split; [cbn [l_mode l_now l_sys]; split; assumption|]].
       unfold log_young. cbn [l_log]. apply Forall_app. split; [exact L|].
-      destruct (sc_step_removed cutoff (l_sys y)) as [delta E]. rewrite E, skipn_length_app.
+      destruct (sc_step_removed cutoff tf (l_sys y)) as [delta E]. rewrite E, skipn_length_app.
       destruct M3 as [_ [R _]]. rewrite E in R. apply Forall_app in R as [_ R].
       apply Forall_forall. intros p Hp. apply in_map_iff in Hp as [x [<- Hx]]. cbn [fst snd].
       rewrite Forall_forall in R. specialize (R x Hx). unfold expired in R. apply Z.ltb_lt in R. lia.
@@ -315,7 +349,7 @@ Proof.
   - destruct (is_done (s_phase (l_sys y))); [left; exact He|]. cbn [l_sys l_log].
     unfold sc_step. destruct (s_phase (l_sys y)) as [|mb [|v rest]|b]; try (left; exact He).
     + destruct (s_todo (l_sys y)); left; exact He.
-    + destruct (s_cancel (l_sys y)); left; exact He.
+    + destruct (s_cancel (l_sys y) && negb tf); left; exact He.
     + destruct (expired cutoff (snd v)); [|left; exact He]. cbn [s_st s_removed].
       destruct (do_remove_live cfg (s_st (l_sys y)) mb (fst v)) as [L _]. rewrite L, skipn_length_app.
       destruct (is_ent mb (fst v) e) eqn:E.
@@ -326,11 +360,25 @@ Qed.
 
 (* ------------------------------------------------------------------ (d) expired messages go *)
 
+Lemma SInv_lstep y e : SInv (s_st (l_sys y)) -> SInv (s_st (l_sys (lstep y e))).
+Proof.
+  intros S. destruct e as [d| |o|tf]; cbn [lev_step with_sys l_sys ev_step s_st]; try exact S.
+  - apply exec_spec_SInv. exact S.
+  - unfold loop_step. destruct (l_mode y); try exact S.
+    + destruct (s_cancel (l_sys y) && _); [exact S|]. destruct (_ <=? _); exact S.
+    + destruct (is_done (s_phase (l_sys y))); [exact S|]. cbn [l_sys]. unfold sc_step.
+      destruct (s_phase (l_sys y)) as [|mb [|v rest]|b]; try exact S.
+      * destruct (s_todo (l_sys y)); exact S.
+      * destruct (s_cancel (l_sys y) && negb tf); exact S.
+      * destruct (expired cutoff (snd v)); [apply do_remove_SInv|]; exact S.
+    + destruct (s_cancel (l_sys y)); exact S.
+Qed.
+
 Section Target.
 Variable mb0 : str.
 Variable k0 : nat.
 Variable d0 : Z.
-Hypothesis enum_covers : forall st e, In e (live st) -> In (e_mb e) (enum st).
+Hypothesis enum_covers : forall st e, SInv st -> In e (live st) -> In (e_mb e) (enum st).
 
 Definition GBase (st : spec_store) : Prop :=
   (k0 < count_of mb0 (counts st))%nat /\
@@ -356,9 +404,9 @@ Definition QInv (y : lstate) : Prop :=
 Lemma GInv_base c s : GInv c mb0 k0 d0 s -> GBase (s_st s).
 Proof. intros [A [B _]]. split; assumption. Qed.
 
-Lemma QInv_step y e : QInv y -> QInv (lstep y e).
+Lemma QInv_step y e : SInv (s_st (l_sys y)) -> QInv y -> QInv (lstep y e).
 Proof.
-  intros [B [T M]]. destruct e as [d| |o|tf]; cbn [lev_step].
+  intros SI [B [T M]]. destruct e as [d| |o|tf]; cbn [lev_step].
   - split; [exact B|split; [cbn [l_now]; lia|exact M]].
   - split; [exact B|split; [exact T|]]. cbn [with_sys l_mode l_sys l_done]. destruct (l_mode y); exact M.
   - split; [apply GBase_op; exact B|split; [exact T|]]. cbn [with_sys l_mode l_sys l_done ev_step s_st].
@@ -371,13 +419,13 @@ Proof.
       destruct (l_last y + minute <=? l_now y); [|split; [exact B|split; [exact T|rewrite Md; exact I]]].
       split; [exact B|split; [exact T|]]. cbn [l_mode l_sys]. split; [exact T|].
       destruct B as [B1 B2]. split; [exact B1|split; [exact B2|]]. cbn [s_phase scan_sys s_st s_todo].
-      intros [e [He Ee]]. apply is_ent_iff in Ee as [Em _]. rewrite <- Em. apply enum_covers. exact He.
+      intros [e [He Ee]]. apply is_ent_iff in Ee as [Em _]. rewrite <- Em. apply enum_covers; [exact SI|exact He].
     + destruct M as [M1 M2]. destruct (s_phase (l_sys y)) as [|mb rest|b] eqn:P; cbn [is_done].
       * pose proof M1 as M1'. apply Z.ltb_lt in M1'.
-        pose proof (GInv_step cfg cutoff mb0 k0 d0 M1' (l_sys y) EStep M2) as M3. cbn [ev_step] in M3.
+        pose proof (GInv_step cfg cutoff mb0 k0 d0 M1' (l_sys y) (EStep tf) M2) as M3. cbn [ev_step] in M3.
         split; [exact (GInv_base _ _ M3)|split; [exact T|]]. cbn [l_mode l_sys]. split; assumption.
       * pose proof M1 as M1'. apply Z.ltb_lt in M1'.
-        pose proof (GInv_step cfg cutoff mb0 k0 d0 M1' (l_sys y) EStep M2) as M3. cbn [ev_step] in M3.
+        pose proof (GInv_step cfg cutoff mb0 k0 d0 M1' (l_sys y) (EStep tf) M2) as M3. cbn [ev_step] in M3.
         split; [exact (GInv_base _ _ M3)|split; [exact T|]]. cbn [l_mode l_sys]. split; assumption.
       * split; [exact B|split; [exact T|]]. cbn [l_mode l_done l_sys hd_error].
         intros ts H. inversion H; subst. destruct M2 as [_ [_ M2]]. rewrite P in M2. exact M2.
@@ -385,8 +433,11 @@ Proof.
     + split; [exact B|split; [exact T|rewrite Md; exact I]].
 Qed.
 
-Lemma QInv_run evs : forall y, QInv y -> QInv (run y evs).
-Proof. induction evs as [|e r IH]; intros y H; [exact H|]. rewrite lrun_cons. apply IH. apply QInv_step. exact H. Qed.
+Lemma QInv_run evs : forall y, SInv (s_st (l_sys y)) -> QInv y -> QInv (run y evs).
+Proof.
+  induction evs as [|e r IH]; intros y SI H; [exact H|]. rewrite lrun_cons.
+  apply IH; [apply SInv_lstep; exact SI|apply QInv_step; assumption].
+Qed.
 
 (** Once gone, a message (its handle) never comes back. *)
 Lemma absent_forever evs : forall y,
@@ -408,7 +459,7 @@ Proof.
       - destruct (is_done (s_phase (l_sys y))); [reflexivity|]. cbn [l_sys]. unfold sc_step.
         destruct (s_phase (l_sys y)) as [|mb [|v rest]|b]; try reflexivity.
         + destruct (s_todo (l_sys y)); reflexivity.
-        + destruct (s_cancel (l_sys y)); reflexivity.
+        + destruct (s_cancel (l_sys y) && negb tf); reflexivity.
         + destruct (expired cutoff (snd v)); [|reflexivity]. cbn [s_st]. apply do_remove_live.
       - destruct (s_cancel (l_sys y)); reflexivity. }
     apply IH; cbn [lev_step].
@@ -424,7 +475,7 @@ End Target.
     move of the loop once a minute has passed since the previous one started, and every move
     of an uncancelled scan brings it closer to completion.) *)
 Lemma loop_deletes_expired y0 e evs1 evs2 ts :
-  (forall st x, In x (live st) -> In (e_mb x) (enum st)) ->
+  (forall st x, SInv st -> In x (live st) -> In (e_mb x) (enum st)) ->
   SInv (s_st (l_sys y0)) -> l_mode y0 = LWait ->
   In e (live (s_st (l_sys y0))) -> m_date (e_msg e) < l_now y0 - period ->
   l_mode (run y0 evs1) = LCheck -> hd_error (l_done (run y0 evs1)) = Some (ts, false) ->
@@ -436,7 +487,7 @@ Proof.
     intros x Hx Ex. apply is_ent_iff in Ex as [Xm Xk]. assert (x = e); [|subst; reflexivity].
     eapply SS_klt_inj; [apply (SS (e_mb e))|apply box_in; auto|apply box_in; auto|exact Xk]. }
   assert (Q0 : QInv (e_mb e) (e_k e) (m_date (e_msg e)) y0) by (split; [exact B0|split; [exact Old|rewrite M; exact I]]).
-  pose proof (QInv_run _ _ _ Cov evs1 y0 Q0) as [B1 [_ Q1]]. rewrite M1 in Q1. specialize (Q1 ts D1).
+  pose proof (QInv_run _ _ _ Cov evs1 y0 S Q0) as [B1 [_ Q1]]. rewrite M1 in Q1. specialize (Q1 ts D1).
   rewrite lrun_app in He'.
   apply (absent_forever _ _ _ evs2 (run y0 evs1) B1 Q1). exists e'. split; [exact He'|]. apply is_ent_iff. auto.
 Qed.
@@ -463,9 +514,9 @@ Definition scan_measure (s : sys) : nat * nat :=
 
 Definition lex_lt (a b : nat * nat) : Prop := (fst a < fst b)%nat \/ (fst a = fst b /\ (snd a < snd b)%nat).
 
-Lemma scan_progress c s : s_cancel s = false -> (exists b, s_phase s = PDone b) \/
-  lex_lt (scan_measure (sc_step cfg c s)) (scan_measure s) \/
-  (s_phase s = PIdle /\ exists mb r, s_todo s = mb :: r /\ s_phase (sc_step cfg c s) = PBox mb (snapshot (s_st s) mb) /\ s_todo (sc_step cfg c s) = r).
+Lemma scan_progress c tf s : s_cancel s = false -> (exists b, s_phase s = PDone b) \/
+  lex_lt (scan_measure (sc_step cfg c tf s)) (scan_measure s) \/
+  (s_phase s = PIdle /\ exists mb r, s_todo s = mb :: r /\ s_phase (sc_step cfg c tf s) = PBox mb (snapshot (s_st s) mb) /\ s_todo (sc_step cfg c tf s) = r).
 Proof.
   intros C. unfold sc_step, scan_measure, lex_lt. destruct (s_phase s) as [|mb [|v rest]|b] eqn:P.
   - destruct (s_todo s) as [|mb r] eqn:T.
@@ -489,3 +540,17 @@ Example loop_ex :
   l_mode y = LExit /\ l_closed y = true /\ l_starts y = [61] /\ l_done y = [(61, false)] /\
   map e_k (live (s_st (l_sys y))) = [1%nat; 2%nat] /\ map (fun p => (e_k (fst p), snd p)) (l_log y) = [(0%nat, 61)].
 Proof. vm_compute. repeat split. Qed.
+
+(** The instance for the store's own enumeration ([spec_visit]: the mailboxes that hold mail,
+    what VisitMailboxes hands out): no coverage hypothesis is left. *)
+Definition visit_enum (st : spec_store) : list str := map fst (spec_visit st).
+
+Theorem loop_deletes_expired_all cfg period y0 e evs1 evs2 ts :
+  SInv (s_st (l_sys y0)) -> l_mode y0 = LWait ->
+  In e (live (s_st (l_sys y0))) -> (m_date (e_msg e) < l_now y0 - period)%Z ->
+  l_mode (lrun cfg period visit_enum y0 evs1) = LCheck ->
+  hd_error (l_done (lrun cfg period visit_enum y0 evs1)) = Some (ts, false) ->
+  forall e', In e' (live (s_st (l_sys (lrun cfg period visit_enum y0 (evs1 ++ evs2))))) -> ~ (e_mb e' = e_mb e /\ e_k e' = e_k e).
+Proof.
+  apply loop_deletes_expired. intros st x S Hx. apply visit_covers; assumption.
+Qed.
